@@ -579,6 +579,18 @@ class World:
             return self.script.get('build', (404, {}))
         return 404, {}
 
+    def in_flight(self):
+        """The answer of the host has been produced and is on its way: if an operation is scheduled to happen
+        meanwhile (another thread: a webhook handler, the worker's poll), it runs now, once."""
+        op = getattr(self, 'during', None)
+        if op is not None:
+            self.during = None
+            saved = self.script
+            try:
+                self.during_answer = self.apply(op)
+            finally:
+                self.script = saved
+
     def _http_error(self, code):
         from requests import HTTPError
         return HTTPError('%d' % code, response=SimpleNamespace(status_code=code))
@@ -593,6 +605,7 @@ class World:
         def agg_status_get(cls, client, url=None, params={}, headers={}, **kwargs):
             code, data = w.script.get('status', (404, {}))
             w.http_calls += 1
+            w.in_flight()
             if code != 200:
                 raise w._http_error(code)
             return cls(client=client, _validate=False, **data)
@@ -600,6 +613,7 @@ class World:
         def runs_get(cls, client, url=None, params={}, headers={}, **kwargs):
             code, data = w.script.get('runs', (404, {}))
             w.http_calls += 1
+            w.in_flight()
             if code != 200:
                 raise w._http_error(code)
             return cls(client=client, _validate=False, **data)
@@ -607,6 +621,7 @@ class World:
         def build_get(cls, client, **kwargs):
             code, data = w.script.get('build', (404, {}))
             w.http_calls += 1
+            w.in_flight()
             if code != 200:
                 raise w._http_error(code)
             return cls(client, **data)
@@ -846,6 +861,10 @@ def corpus_cases():
 
 def _tup(x):
     return tuple(_tup(e) for e in x) if isinstance(x, list) else x
+
+
+def op_to_json(o):
+    return json.loads(json.dumps(o))
 
 
 def op_from_json(o):
@@ -1283,6 +1302,8 @@ def run(ctx, replay_input=None):
                                   ('PG', 'c0', 'github_actions', ([('pre-merge', 'failure', 'FAILED')], weird_runs, '?'))]),
                ('gh', 'fast', 2, [('PG', 'c0', 'pre-merge', ([('pre-merge', 'weird', '?')], [], 'NOTSTARTED'))])]
         check_seq(ctx, None, mal, 'malformed', in_quantifier=False)
+        # 6. two threads: while the host's answer to one operation is in flight, another operation runs to its end
+        interleaved(ctx)
     finally:
         pool.terminate()
         cur = _WORLDS.get('current')
@@ -1291,5 +1312,55 @@ def run(ctx, replay_input=None):
             _WORLDS.pop('current', None)
 
 
+def interleaved(ctx):
+    """Handlers run in Flask threads, polls in the worker: at every point where one of them waits for the host, the
+    other may run.  For every outer operation that talks to the host (check_suite event, poll) and every inner
+    operation on the same commit and key that makes Bert-E see SUCCESSFUL meanwhile, whatever the outer operation
+    then writes, a later poll - the host now reporting a failure - must still be answered SUCCESSFUL."""
+    red_gh = op_pg('c0', 'github_actions', [('pre-merge', 'FAILED')], 'FAILED')
+    scen = []
+    for outer_state in ('INPROGRESS', 'FAILED', 'NOTSTARTED'):
+        # GitHub, key github_actions: outer = check_suite event or poll with a stale answer; inner = green poll
+        green = op_pg('c0', 'github_actions', [('pre-merge', 'SUCCESSFUL')], 'SUCCESSFUL')
+        scen.append(('gh', ('EU', 'c0', RUNS_OF[outer_state], outer_state), green, red_gh, 'github_actions'))
+        scen.append(('gh', op_pg('c0', 'github_actions', [], outer_state), green, red_gh, 'github_actions'))
+    for outer_state in ('INPROGRESS', 'FAILED'):
+        # GitHub, status key: outer = poll with a stale answer; inner = green status event
+        red = op_pg('c0', 'pre-merge', [('pre-merge', 'FAILED')], 'FAILED')
+        scen.append(('gh', op_pg('c0', 'pre-merge', [('pre-merge', outer_state)], 'FAILED'),
+                     op_es('c0', 'pre-merge', 'SUCCESSFUL'), red, 'pre-merge'))
+        # Bitbucket: outer = poll with a stale answer; inner = green commit-status event
+        scen.append(('bb', ('PB', 'c0', 'pre-merge', outer_state), ('EB', 'c0', 'pre-merge', 'SUCCESSFUL'),
+                     ('PB', 'c0', 'pre-merge', 'FAILED'), 'pre-merge'))
+    for host, outer, inner, later, key in scen:
+        w = world(host, 'fast')
+        w.reset(2)
+        w.during, w.during_answer = inner, None
+        try:
+            a_outer = w.apply(outer)
+        except KeyError:
+            a_outer = 'KeyError'
+        fired = w.during is None
+        w.during = None
+        seen_green = (w.during_answer == 'SUCCESSFUL') or inner[0] in ('ES', 'EB') or a_outer == 'SUCCESSFUL'
+        a_later = w.apply(later)
+        ctx.evaluations += 1
+        ctx.count('interleaved:%s+%s' % (outer[0], inner[0]))
+        inp = {'host': host, 'outer': op_to_json(outer), 'while_its_answer_is_in_flight': op_to_json(inner),
+               'then': op_to_json(later), 'key': key, 'inner_fired': fired,
+               'answers': [a_outer, w.during_answer, a_later]}
+        if fired and seen_green:
+            ctx.seen_nontrivial(core.canon({k: inp[k] for k in ('host', 'outer', 'while_its_answer_is_in_flight')}))
+            if a_later != 'SUCCESSFUL':
+                ctx.violation(inp, 'SUCCESSFUL', a_later,
+                              'a commit seen SUCCESSFUL while another operation waited for the host is downgraded by '
+                              'the stale answer of that operation',
+                              key=core.canon({'what': 'interleaved downgrade', 'host': host, 'outer': outer[0],
+                                              'inner': inner[0]}))
+
+
 def replay(ctx, data):
+    if 'while_its_answer_is_in_flight' in data['input']:
+        interleaved(ctx)
+        return
     run(ctx, data['input'])
